@@ -144,6 +144,27 @@ func (x *Exec) specForm(name string, e *ast.CallExpr, st *State, sp *SpecCtx) (V
 		k := Sym(fmt.Sprintf("%s?%d", id.Name, x.fresh), so)
 		body := x.specArgBool(e.Args[1], st, sp.with(id.Name, Value{T: ty, Term: k}))
 		return bv(Forall([]*Term{k}, body))
+	case "forallkey":
+		// forallkey(k, m, body): for every key k in the domain of map m
+		id, ok := e.Args[0].(*ast.Ident)
+		if !ok || len(e.Args) != 3 {
+			x.errorf("forallkey(k, map, body)")
+			return Value{Term: False}, true
+		}
+		m := x.eval(e.Args[1], st, sp)
+		if m.Dom == nil || m.T == nil {
+			x.errorf("forallkey: not a tracked map")
+			return Value{Term: False}, true
+		}
+		mt, isMap := m.T.Underlying().(*types.Map)
+		if !isMap {
+			x.errorf("forallkey: not a map")
+			return Value{Term: False}, true
+		}
+		x.fresh++
+		k := Sym(fmt.Sprintf("%s?%d", id.Name, x.fresh), sortOf(mt.Key()))
+		body := x.specArgBool(e.Args[2], st, sp.with(id.Name, Value{T: mt.Key(), Term: k}))
+		return bv(Forall([]*Term{k}, Implies(Select(m.Dom, k), body)))
 	case "sum":
 		// sum(k, lo, hi, cap, body): capacity expansion, cap must be a literal
 		if len(e.Args) != 5 {
@@ -223,6 +244,25 @@ func (x *Exec) specForm(name string, e *ast.CallExpr, st *State, sp *SpecCtx) (V
 			return Value{Term: False}, true
 		}
 		return bv(Select(m.Dom, k.Term))
+	case "visited":
+		// visited(k): key k of the map of the annotated range loop has been visited
+		v, ok := sp.bound["__visited"]
+		k := x.eval(e.Args[0], st, sp)
+		if !ok || v.Term == nil || k.Term == nil {
+			x.errorf("visited(k) only inside invariants of a range loop over a map")
+			return Value{Term: False}, true
+		}
+		return bv(Select(v.Term, k.Term))
+	case "indom2":
+		// indom2(m, k1, k2): m[k1] exists and contains key k2 (map of maps)
+		m := x.eval(e.Args[0], st, sp)
+		k1 := x.eval(e.Args[1], st, sp)
+		k2 := x.eval(e.Args[2], st, sp)
+		if m.Dom == nil || m.Dom2 == nil || k1.Term == nil || k2.Term == nil {
+			x.errorf("indom2(map of maps, key, key)")
+			return Value{Term: False}, true
+		}
+		return bv(And(Select(m.Dom, k1.Term), Select(Select(m.Dom2, k1.Term), k2.Term)))
 	case "isnil":
 		v := x.eval(e.Args[0], st, sp)
 		if v.Term != nil && v.Term.S.K == SU {
